@@ -164,7 +164,23 @@ cfg_if! {
     }
 }
 
+/// Verification hook: when set, `utf8_valid_up_to` skips the simdutf8 fast
+/// path so that the built-in scalar validator also handles inputs of 64 bytes
+/// or more on CPUs with SSE 4.2 / AVX2. Only exists under
+/// `--cfg hsivonen_encoding_rs_verif`.
+#[cfg(hsivonen_encoding_rs_verif)]
+pub static VERIF_FORCE_SCALAR_UTF8_VALIDATION: ::core::sync::atomic::AtomicBool =
+    ::core::sync::atomic::AtomicBool::new(false);
+
 pub fn utf8_valid_up_to(src: &[u8]) -> usize {
+    #[cfg(hsivonen_encoding_rs_verif)]
+    let fast_utf8_valid_up_to = |s: &[u8]| {
+        if VERIF_FORCE_SCALAR_UTF8_VALIDATION.load(::core::sync::atomic::Ordering::Relaxed) {
+            None
+        } else {
+            fast_utf8_valid_up_to(s)
+        }
+    };
     if let Some(up_to) = fast_utf8_valid_up_to(src) {
         return up_to;
     }
